@@ -136,6 +136,101 @@ pub fn run(tier: Tier, seed: u64) -> i32 {
         });
         rep.add(b);
     }
+    // a truncation cut short by a storage fault (at every device call of it) and NOT repeated; the handle is closed,
+    // the volume mounted afresh, then another file allocates, then the truncated file is written again through the same handle: no write of the rest of the session
+    // may land in a cluster of the other file (a kept part that still links into clusters already given back would)
+    if !rep.failed() {
+        let vols: Vec<VolCfg> = [1usize, 8, 3, 9, 12].iter().map(|p| VolCfg::from_preset(*p)).collect();
+        let hp_ref = &hp;
+        let b = run::run_indexed("truncation_hit_by_a_fault_then_another_file_allocates", vols.len() as u64, |i, blk| {
+            let vol = &vols[i as usize];
+            let cs = vol.cluster_size();
+            for k in 0..120u16 {
+                let mut ops = vec![Op::CreateFile { via: 0, path: "a.bin".into(), keep: 1 }];
+                for j in 0..4u8 {
+                    ops.push(Op::Write { h: 0, len: cs, seed: 1 + j });
+                }
+                ops.extend([
+                    Op::Flush { h: 0 },
+                    Op::Seek { h: 0, whence: 0, off: cs as i64 },
+                    Op::FaultNext { k, hold: 1, interrupted: false, burst: 0 },
+                    Op::Truncate { h: 0 },
+                    Op::CloseFile { h: 0 },
+                    // a fresh session: on FAT12/16 the search for free clusters starts at the beginning again
+                    Op::Remount { how: (k % 2) as u8 },
+                    Op::CreateFile { via: 0, path: "b.bin".into(), keep: 2 },
+                    Op::Write { h: 1, len: cs, seed: 7 },
+                    Op::Write { h: 1, len: cs, seed: 8 },
+                    Op::Write { h: 1, len: cs, seed: 9 },
+                    Op::OpenFile { via: 0, path: "a.bin".into(), keep: 1 },
+                    Op::Seek { h: 0, whence: 2, off: 0 },
+                    Op::Write { h: 0, len: 20, seed: 10 },
+                    Op::Write { h: 0, len: cs, seed: 11 },
+                    Op::Seek { h: 1, whence: 0, off: 3 },
+                    Op::Write { h: 1, len: 30, seed: 12 },
+                    Op::CloseFile { h: 0 },
+                    Op::CloseFile { h: 1 },
+                ]);
+                let case = Case { vol: vol.clone(), ops };
+                let mut out = hist::eval_case(hp_ref, &case);
+                let fired = out.classes.contains_key("cases_with_fault_fired");
+                out.nontrivial = fired;
+                out.hash = run::hash_str(&format!("truncfault|{}|{:?}", k, vol));
+                blk.record(&out, || serde_json::json!({"vol": vol, "fault_at_device_call": k}));
+                if let Some(m) = out.violation {
+                    return Some(run::Failure { message: format!("fault at device call {} of a truncation: {}", k, m), case: serde_json::to_value(&case).unwrap(), kind: "history".into() });
+                }
+                if !fired {
+                    break;
+                }
+            }
+            None
+        });
+        rep.add(b);
+    }
+    // FAT32 volumes without a usable information sector (field 0 / the unused marker 0xFFFF), mounted with strict
+    // checking off: if the library takes such a volume it must not invent a place to write the structure to
+    if !rep.failed() {
+        let mut hp2 = prop();
+        hp2.run_cfg.lenient_mount = true;
+        let mut vols: Vec<VolCfg> = Vec::new();
+        for fsinfo in [0u16, 0xFFFF] {
+            let mut v = VolCfg::from_gen_preset(5);
+            if let Some(g) = v.gen.as_mut() {
+                g.fsinfo = fsinfo;
+                g.mirror_off = None;
+                g.root_cluster = 2;
+            }
+            vols.push(v);
+        }
+        let hp_ref = &hp2;
+        let b = run::run_indexed("no_usable_fsinfo_sector_nonstrict_mount", vols.len() as u64, |i, blk| {
+            let vol = &vols[i as usize];
+            let cs = vol.cluster_size();
+            let ops = vec![
+                Op::CreateFile { via: 0, path: "a.bin".into(), keep: 1 },
+                Op::Write { h: 0, len: cs, seed: 1 },
+                Op::Write { h: 0, len: 9, seed: 2 },
+                Op::CloseFile { h: 0 },
+                Op::CreateDir { via: 0, path: "d".into(), keep: 0 },
+                Op::Stats,
+                Op::Remount { how: 0 },
+                Op::Remove { via: 0, path: "a.bin".into() },
+                Op::Remount { how: 1 },
+            ];
+            let case = Case { vol: vol.clone(), ops };
+            let mut out = hist::eval_case(hp_ref, &case);
+            out.nontrivial = true;
+            if out.classes.get("ops_run").copied().unwrap_or(0) == 0 && out.violation.as_deref().map_or(false, |m| m.contains("mount of a valid volume failed") || m.contains("imggen") || m.contains("refdec rejects")) {
+                // the library (or the independent decoder) does not take the volume: nothing to judge
+                out.violation = None;
+                out.classes.insert("volume_refused".into(), 1);
+            }
+            blk.record(&out, || serde_json::json!({"vol": vol}));
+            out.violation.map(|m| run::Failure { message: m, case: serde_json::to_value(&case).unwrap(), kind: "history".into() })
+        });
+        rep.add(b);
+    }
     if !rep.failed() {
         let mut lcs = c20::large_cfgs();
         for l in lcs.iter_mut() {
